@@ -151,7 +151,7 @@ func (h *Hook) matchesCurrent() (bool, bool, error) {
 		return false, false, err
 	}
 
-	by, err := io.ReadAll(io.LimitReader(file, 1024))
+	by, err := io.ReadAll(file)
 	file.Close()
 	if err != nil {
 		return false, false, err
